@@ -408,7 +408,7 @@ pub fn encode_with_random_head_fault(v: &Value, src: &mut Src) -> (Vec<u8>, Opti
 
 /// One byte-level mutation. `other` is a second valid message for splicing.
 pub fn mutate_bytes(b: &mut Vec<u8>, other: &[u8], src: &mut Src) -> String {
-    let op = src.below(6);
+    let op = src.below(7);
     if b.is_empty() {
         b.push(src.byte());
         return "insert".into();
@@ -447,6 +447,15 @@ pub fn mutate_bytes(b: &mut Vec<u8>, other: &[u8], src: &mut Src) -> String {
             let i = src.below(b.len());
             b.truncate(i);
             "truncate".into()
+        }
+        5 => {
+            // stray bytes after the message
+            let n = src.range(1, 9);
+            for _ in 0..n {
+                let x = src.byte();
+                b.push(x);
+            }
+            "append".into()
         }
         _ => {
             let i = src.below(b.len());
